@@ -28,8 +28,11 @@ Pow2(n) == IF n = 0 THEN 1 ELSE 2 * Pow2(n - 1)
 
 VARIABLES l,     \* position in TraceLog
           run,   \* line of the Reset that started this run
-          hyp    \* index of the hypothesis in that Reset's devs
-tvars == <<vars, l, run, hyp>>
+          hyp,   \* index of the hypothesis in that Reset's devs
+          rk,    \* Seq: for request i the rank of its response among the responses of the run (logged with the
+                 \* request as `rl` by a join of the log with itself; larger than every rank if it has no response)
+          srcOf  \* Seq: requester of request i
+tvars == <<vars, l, run, hyp, rk, srcOf>>
 
 RunStarts == {i \in 1..N : TraceLog[i].e = "Reset"}
 SetOf(s) == {s[i] : i \in 1..Len(s)}
@@ -38,11 +41,12 @@ CfgOf(r, devs) == [nb |-> r.banks, il |-> Pow2(r.ilog), rowsz |-> Pow2(r.rowlog)
 
 Ev == TraceLog[l]
 Is(e) == l <= N /\ Ev.e = e /\ l' = l + 1 /\ UNCHANGED <<run, hyp>>
+Keep == UNCHANGED <<rk, srcOf>>
 PayloadOf(ev) == [k |-> ev.k, a |-> ev.a, n |-> ev.n, d |-> ev.d, m |-> ev.m]
 
 TInit ==
   \E r \in RunStarts : \E h \in 1..Len(TraceLog[r].devs) :
-    /\ run = r /\ hyp = h /\ l = r + 1
+    /\ run = r /\ hyp = h /\ l = r + 1 /\ rk = <<>> /\ srcOf = <<>>
     /\ cfg = CfgOf(TraceLog[r], TraceLog[r].devs[h])
     /\ topIn = <<>> /\ pending = <<>>
     /\ delayQ = [b \in 0..(TraceLog[r].banks - 1) |-> <<>>]
@@ -52,19 +56,21 @@ TInit ==
     /\ done = {} /\ rdata = <<>> /\ storage = <<>> /\ topOut = <<>>
     /\ reqs = <<>> /\ loc = <<>> /\ rsps = <<>> /\ wasHit = {}
 
-TEnvReq == Is("EnvReq") /\ Ev.id = Len(reqs) + 1 /\ EnvReq(PayloadOf(Ev), Ev.ba)
-TDrain  == Is("Drain") /\ topIn # <<>> /\ Head(topIn) = Ev.id /\ Drain
+TEnvReq == Is("EnvReq") /\ Ev.id = Len(reqs) + 1 /\ EnvReq(PayloadOf(Ev), Ev.ba) /\ rk' = Append(rk, Ev.rl) /\ srcOf' = Append(srcOf, Ev.src)
+TDrain  == Is("Drain") /\ topIn # <<>> /\ Head(topIn) = Ev.id /\ Drain /\ Keep
 TRsp    == /\ Is("Rsp")
            /\ \E b \in Banks : /\ post[b] # <<>> /\ Head(post[b]) = Ev.id
                                /\ SendRsp(b)
                                /\ Ev.k = reqs[Ev.id].k
                                /\ Ev.k = "r" => Ev.d = rdata[Ev.id]
-TTake   == Is("EnvTake") /\ topOut # <<>> /\ Head(topOut).to = Ev.id /\ EnvTake
+                               /\ Ev.dst = srcOf[Ev.id]
+           /\ Keep
+TTake   == Is("EnvTake") /\ topOut # <<>> /\ Head(topOut).to = Ev.id /\ EnvTake /\ Keep
 TQuiesce == /\ Is("Quiesce") /\ Quiescent /\ Answered = 1..Len(reqs)
             /\ \A i \in 1..Len(Ev.store) :
                  \A j \in 1..Len(Ev.store[i][2]) : Ev.store[i][2][j] = Get(storage, Ev.store[i][1] + j - 1)
             /\ PrintT(<<"RUNOK", run, hyp>>)
-            /\ UNCHANGED vars
+            /\ UNCHANGED vars /\ Keep
 
 \* Unobservable sub-steps.  Banks do not interact (requests that share a byte share a bank), so it is enough to let
 \* the bank work whose response is the next one in the log: every other interleaving is equivalent to one of these.
@@ -77,20 +83,34 @@ FocusBank == IF l > N \/ NextRsp[l] = 0 THEN -1
              ELSE LET id == TraceLog[NextRsp[l]].id IN
                   IF id \in 1..Len(loc) THEN loc[id].b ELSE -1
 
-\* Lanes matter only through LaneOvertake ("an item may leave if no older item shares its lane"), and only as a
-\* partition of the items in the pipeline: a new item joins a lane in use or opens the first free one.
+\* Lanes matter only through LaneOvertake ("an item may leave if no older item shares its lane").  Trace validation
+\* over-approximates that deviation: every item gets a lane of its own, so any item may overtake any older one (the
+\* real pipeline has cfg.width lanes).  Entry order and the row-order deviations then no longer matter, so under
+\* LaneOvertake requests of a bank are dispatched oldest first.
 LanesInUse(b) == {pipe[b][i].lane : i \in 1..Len(pipe[b])}
-LaneChoice(b) ==
-  IF "LaneOvertake" \notin cfg.dev THEN {1}
-  ELSE LanesInUse(b) \cup (IF Lanes \ LanesInUse(b) = {} THEN {}
-                           ELSE {CHOOSE x \in Lanes \ LanesInUse(b) : \A y \in Lanes \ LanesInUse(b) : x <= y})
+MaxOf(S) == IF S = {} THEN 0 ELSE CHOOSE x \in S : \A y \in S : y <= x
+LaneFor(b) == IF "LaneOvertake" \notin cfg.dev THEN 1 ELSE 1 + MaxOf(LanesInUse(b))
+OldestOfBank(i) == \A j \in 1..(i - 1) : loc[pending[j]].b # loc[pending[i]].b
+
+\* Dead ends are not explored.  The post-pipeline buffer and the port are FIFOs, so the requests of a bank leave its
+\* pipeline in the order of their responses in the log; and unless LaneOvertake is assumed the pipeline and the delay
+\* queue are FIFOs too, so they are entered in that order as well.
+Waiting(b) == {id \in 1..Len(reqs) : loc[id].b = b /\ id \notin done}           \* arrived, not yet out of the pipeline
+InPipe(b) == {pipe[b][i].id : i \in 1..Len(pipe[b])}
+MayLeave(b, id) == \A x \in Waiting(b) \ {id} : rk[x] > rk[id]
+MayEnter(b, id) == "LaneOvertake" \in cfg.dev \/ \A x \in (Waiting(b) \ InPipe(b)) \ {id} : rk[x] > rk[id]
+MayQueue(b, id) == "LaneOvertake" \in cfg.dev \/ \A i \in 1..Len(delayQ[b]) : rk[delayQ[b][i]] < rk[id]
 
 TInternal ==
-  /\ FocusBank >= 0 /\ UNCHANGED <<l, run, hyp>>
+  /\ FocusBank >= 0 /\ UNCHANGED <<l, run, hyp, rk, srcOf>>
   /\ LET b == FocusBank IN
-     \/ \E i \in 1..Len(pending), lane \in LaneChoice(b) : loc[pending[i]].b = b /\ Dispatch(i, lane)
-     \/ \E lane \in LaneChoice(b) : Expire(b, lane)
-     \/ \E k \in 1..Len(pipe[b]) : ExitAndCommit(b, k)
+     \/ \E i \in 1..Len(pending) :
+          /\ loc[pending[i]].b = b
+          /\ "LaneOvertake" \in cfg.dev => OldestOfBank(i)
+          /\ \E lane \in {1, LaneFor(b)} : Dispatch(i, lane)      \* (the delay-queue path of Dispatch wants lane = 1)
+          /\ IF Len(delayQ'[b]) > Len(delayQ[b]) THEN MayQueue(b, pending[i]) ELSE MayEnter(b, pending[i])
+     \/ delayQ[b] # <<>> /\ MayEnter(b, Head(delayQ[b])) /\ Expire(b, LaneFor(b))
+     \/ \E k \in 1..Len(pipe[b]) : MayLeave(b, pipe[b][k].id) /\ ExitAndCommit(b, k)
 
 TNext == TEnvReq \/ TDrain \/ TRsp \/ TTake \/ TQuiesce \/ TInternal
 TSpec == TInit /\ [][TNext]_tvars
